@@ -1,5 +1,7 @@
 //! cmap text format (C09 / C10): `ser`, `loadtext`, `rt` and the implementation-only commands
-//! `rt32`, `wvbits`.  Must match `Honeycomb/Model/SessionIO.lean`.
+//! `rt32`, `wvbits`; character level (C09b / C10b): `serhex` (the BYTES of `serialize`, coordinate
+//! fields replaced by their exact rational text, every other byte kept) and `loadhex <mask> [hex]`
+//! (raw bytes written to the file as they are).  Must match `Honeycomb/Model/SessionIO.lean`.
 //!
 //! The only public way to build a map from cmap text is
 //! `CMapBuilder::<2, T>::from_cmap_file(path).build()`; `from_cmap_file` *unwraps* the result of
